@@ -15,10 +15,15 @@ import (
 // C06 — natural-language text survives both codecs byte for byte (DESIGN.md §3 C06).
 
 var c06Tokens = []string{"a", " ", `\`, `"`, "/", "n", "t", "u", "0041", "<", "&", "{", "}", "[", "]", ":", ",", "1", "42", "true", "null",
-	"\n", "\t", "\r", "\x01", "\x1f", "\x7f", "é", "€", " ", "�", "😀"}
+	"\n", "\t", "\r", "\x01", "\x1f", "\x7f", "é", "€", " ", "�", "😀",
+	// format and bidi characters, other line separators (tokens 32..: used in texts of length <= 2 and in the boundary family)
+	"\u2066", "\u2069", "\u202e", "\u200b", "\ufeff", "\u0085", "\u00a0", "\u2029", "\u061c", "\U000e0001"}
+
+const c06Core = 32 // the first 32 tokens form the alphabet of the length-3 (and length-4) texts
 
 var c06TokenNames = []string{"a", "SP", "BSL", "QUOTE", "/", "n", "t", "u", "0041", "<", "&", "{", "}", "[", "]", ":", ",", "1", "42", "true", "null",
-	"LF", "TAB", "CR", "x01", "x1f", "x7f", "é", "€", "U+2028", "U+FFFD", "😀"}
+	"LF", "TAB", "CR", "x01", "x1f", "x7f", "é", "€", "U+2028", "U+FFFD", "😀",
+	"U+2066", "U+2069", "U+202E", "U+200B", "U+FEFF", "U+0085", "U+00A0", "U+2029", "U+061C", "U+E0001"}
 
 type c06Pos struct {
 	name  string
@@ -40,7 +45,7 @@ var c06Positions = []c06Pos{
 }
 
 // forms: how the text under test is placed in the language list
-var c06Forms = []string{"single-untagged", "single-tagged", "map-first", "map-second", "map-cased-tags"}
+var c06Forms = []string{"single-untagged", "single-tagged", "map-first", "map-second", "map-cased-tags", "untagged+tagged", "tagged+untagged"}
 
 var c06Channels = []string{"json-pkg", "json-method", "gob"}
 
@@ -56,6 +61,12 @@ func c06Build(p c06Pos, form string, text []byte) any {
 		n = ap.NaturalLanguageValues{{Ref: "en", Value: ap.Content(text)}, other}
 	case "map-second":
 		n = ap.NaturalLanguageValues{other, {Ref: "en", Value: ap.Content(text)}}
+	case "untagged+tagged":
+		// exactly one untagged and one tagged entry: the text under test is the tagged one
+		n = ap.NaturalLanguageValues{{Ref: ap.NilLangRef, Value: ap.Content("plain text")}, {Ref: "en", Value: ap.Content(text)}}
+	case "tagged+untagged":
+		// ... and here the untagged one
+		n = ap.NaturalLanguageValues{{Ref: "fr", Value: ap.Content("autre texte")}, {Ref: ap.NilLangRef, Value: ap.Content(text)}}
 	case "map-cased-tags":
 		// BCP 47 tags with upper-case subtags: the tags of a map must come back exactly
 		n = ap.NaturalLanguageValues{{Ref: "zh-Hant", Value: ap.Content("繁體")}, {Ref: "en-US", Value: ap.Content(text)}, {Ref: "sr-Latn-RS", Value: ap.Content("tekst")}}
@@ -167,6 +178,18 @@ func c06Run(c *engine.Ctx) {
 			return
 		}
 		for i := range c06Tokens {
+			if i >= c06Core && len(cur) >= 2 {
+				break // the extended tokens appear in texts of length <= 2 (and in the boundary family)
+			}
+			core := true
+			for _, x := range cur {
+				if x >= c06Core {
+					core = false
+				}
+			}
+			if !core && len(cur) >= 2 {
+				break
+			}
 			gen(append(cur, i))
 		}
 	}
@@ -226,6 +249,24 @@ func c06Run(c *engine.Ctx) {
 					if !found {
 						return
 					}
+				}
+			case "untagged+tagged":
+				for _, e := range got {
+					if e.Ref == "en" {
+						gotText, found = e.Value, true
+					}
+				}
+				if len(got) != 2 || !tags["en"] || !(tags["-"] || tags[""]) {
+					t.Fail(key("map-tags"), "language tags after decode: %q (json %q)", got, js)
+				}
+			case "tagged+untagged":
+				for _, e := range got {
+					if e.Ref == ap.NilLangRef || e.Ref == "" {
+						gotText, found = e.Value, true
+					}
+				}
+				if len(got) != 2 || !tags["fr"] || !(tags["-"] || tags[""]) {
+					t.Fail(key("map-tags"), "language tags after decode: %q (json %q)", got, js)
 				}
 			default:
 				for _, e := range got {
@@ -298,7 +339,7 @@ func c06Run(c *engine.Ctx) {
 			}
 			return
 		}
-		for i := range c06Tokens {
+		for i := range c06Tokens[:c06Core] {
 			gen4(append(cur, i))
 		}
 	}
